@@ -458,6 +458,7 @@ LEMMA_MAP = {
     'L4.sum_prefix_mono': ['L4_sum_prefix_mono'],
     'L4.sum_point_update': ['L4_sum_point_update'],
     'L1.fibre_weighted': ['L1_fibre_weighted'],
+    'L4.sum_neg': ['L4_sum_neg'],
     'L3.count_prefix': ['L3_count_prefix_mono', 'L3_count_prefix_lt'],
     'L3.count_pos': ['L3b_count_pos', 'L3b_count_zero_imp', 'L4_sum_ne_zero_exists'],
     'L7.midrank_strict': ['L7_midrank_strict'],
